@@ -80,6 +80,33 @@ def key_of(c):
     return c["kind"] + "|" + ",".join(f"{v['n']}{v['attr']}" for v in c["vs"])
 
 
+def genericize_decl(decl, key):
+    """A twin of the declaration that is generic over its field types (inline bound on the first parameter, a where-clause
+    ending in a comma on the last), reached by the rest of the module through a type alias of the original name, so
+    values, patterns and impl probes stay as they are. Only where an alias can stand for the type: enums and structs
+    with named fields; and only without listed conversion types (their impls are for concrete field types)."""
+    import re as _re
+    m = _re.search(r"pub (enum|struct) (E|S)( \{|\{)", decl)
+    plain = _re.sub(r"#\[(from|into)\((skip|ignore)\)\]", "", decl)
+    if not m or _re.search(r"\b(Q\d|R\d|RS\d|ZF\d|skip|ignore)\b", plain):
+        return decl
+    if "(forward)" in decl:
+        return decl      # `impl<T, A> From<T> for E<A> where A: From<T>` overlaps core's `impl<T> From<T> for T`
+    if len(set(_re.findall(r"\bV\d\b", decl))) > 1:
+        return decl      # two generic variants' `From<(A1,)>` / `From<(A2,)>` overlap: one-variant enums only
+    if vlib.seeded_pick(key, 41, 2) != 0:
+        return decl
+    used = sorted(set(_re.findall(r"\bP(\d)\b", decl[m.start():])))
+    if not used:
+        return decl
+    name = m.group(2)
+    body = _re.sub(r"\bP(\d)\b", r"A\1", decl[m.end():])
+    params = ", ".join((f"A{u}: Clone" if i == 0 else f"A{u}") for i, u in enumerate(used))
+    where = f" where A{used[-1]}: core::fmt::Debug,"
+    head = decl[:m.start()]
+    return (f"{head}pub {m.group(1)} {name}G<{params}>{where} {{{body}\npub type {name} = {name}G<{', '.join('P' + u for u in used)}>;")
+
+
 def from_module(c, key):
     is_enum = c["kind"] == "from_enum"
     vs = c["vs"]
@@ -143,6 +170,7 @@ def from_module(c, key):
     else:
         attr, body = decls[0]
         decl = f"#[derive(derive_more::From, Debug)]\n{attr.strip()}\npub struct E{body}" + ("" if body.endswith(";") or body.strip().startswith("{") else ";")
+    decl = genericize_decl(decl, key)
     mod = "use super::*;\n" + decl + "\npub fn run() { let mut rows: Vec<String> = vec![];\n    " + "\n    ".join(rows) + f"\n    report({json.dumps(key)}, &rows); }}"
     return mod, exp, decl
 
@@ -239,6 +267,9 @@ def into_module(c, key):
     if fattr:
         rows.append(f'{{ let t: P2 = s.into(); rows.push(format!("into_field {{}}", t.0)); }}')
         exp.append(f"into_field {fattr}")
+    if nc >= 2 and not fattr:
+        # (a single component would make the target a bare type parameter: `impl<A> From<S<A>> for A` is not a legal impl)
+        decl = genericize_decl(decl, key)
     mod = ("use super::*;\n" + decl + f"\npub fn run() {{ let s = {init}; let mut rows: Vec<String> = vec![];\n    " + "\n    ".join(rows) +
            f"\n    report({json.dumps(key)}, &rows); }}")
     return mod, exp, decl
